@@ -27,6 +27,10 @@ class Machine:
         return {"wall": 40, "max_runs": 10 ** 9, "chunk": 10,
                 "task_cap": 120}
 
+    def extra_checks(self, tier, src):
+        """Parent-side checks outside the worker pool (optional)."""
+        return {}
+
     def det_sample(self, tier):
         return 6 if tier == "quick" else 40
 
